@@ -169,18 +169,44 @@ pub fn linear_cases(tier: Tier) -> impl Strategy<Value = LinearCase> {
         })
 }
 
+/// targets for the largest |entry| of a scaled-down row: around the smallest normal number, around
+/// the point where 1/norm overflows, deep subnormal, the smallest subnormal; and around the square
+/// root of the smallest normal number (where the squares of the L2 norm start to underflow)
+const TINY_F64: [f64; 12] = [2.3e-308, 2.2250738585072014e-308, 1.0e-308, 5.7e-309, 5.5e-309, 1.0e-310, 1.0e-320, 5.0e-324, 1.0e-150, 1.5e-154, 1.0e-160, 2.0e-162];
+const TINY_F32: [f64; 12] = [1.2e-38, 1.1754944e-38, 1.0e-38, 3.0e-39, 2.9e-39, 1.0e-40, 1.0e-43, 1.4e-45, 1.0e-18, 1.1e-19, 1.0e-22, 4.0e-23];
+
 pub fn norm_cases(_tier: Tier) -> impl Strategy<Value = NormCase> {
     (
-        (any::<bool>(), proptest::bool::weighted(0.3), 1usize..=MAXP),
+        (any::<bool>(), proptest::bool::weighted(0.3), 1usize..=MAXP, proptest::bool::weighted(0.4)),
         proptest::collection::vec(colspec(), MAXP),
         raw_rows(0, 40),
         selection(),
         meta(),
         prop_oneof![Just(NormKind::L2), Just(NormKind::L1), Just(NormKind::Max)],
     )
-        .prop_map(|((f32_, fortran, p), cols, ry, (sel, sel_perm), meta, norm)| {
+        .prop_map(|((f32_, fortran, p, tiny), cols, ry, (sel, sel_perm), meta, norm)| {
             // the matrix is built like a training matrix (zero rows, repeated rows, constant and zero columns)
-            let y = training_matrix(&cols, &ry, p, f32_);
+            let mut y = training_matrix(&cols, &ry, p, f32_);
+            if tiny {
+                // tiny-magnitude stratum: about a third of the rows are scaled down so that their largest
+                // |entry| lands on one of the targets above (rounded to the element type, so entries
+                // become subnormal or flush to zero), next to ordinary rows of the same batch
+                for (row, (_, _, key)) in y.iter_mut().zip(ry.iter()) {
+                    let k = idx(*key, 16);
+                    if k < 11 {
+                        continue;
+                    }
+                    let big = row.iter().fold(0.0f64, |a, v| a.max(v.abs()));
+                    if big == 0.0 {
+                        continue;
+                    }
+                    let targets = if f32_ { &TINY_F32 } else { &TINY_F64 };
+                    let t = targets[idx(key.wrapping_shl(4), targets.len())];
+                    for v in row.iter_mut() {
+                        *v = round_elem(*v / big * t, f32_);
+                    }
+                }
+            }
             NormCase { norm, c: Common { f32: f32_, fortran, p, x: vec![], y, sel, sel_perm, meta } }
         })
 }
